@@ -386,6 +386,10 @@ struct Exec<'a> {
     file: Option<(std::path::PathBuf, Vec<u8>)>,
     counts: HashMap<&'static str, i64>,
     proactor_dropped: bool,
+    /// race-detector legs: never let go of a thread-pool operation and finish them all
+    /// before the proactor goes away (the release of a key on a pool thread after the
+    /// proactor is gone is a known finding which the log rule of the plain leg reports)
+    keep_pool_ops: bool,
 }
 
 fn vio(v: &mut Vec<(String, String)>, prop: &str, rule: &str, ctx: &str, what: String) {
@@ -393,6 +397,38 @@ fn vio(v: &mut Vec<(String, String)>, prop: &str, rule: &str, ctx: &str, what: S
 }
 
 impl<'a> Exec<'a> {
+    fn pool_route(&self, i: usize) -> bool {
+        match self.ops[i].spec.kind {
+            K::Asyncify => true,
+            K::ReadAt => self.dt == DriverType::Poll,
+            _ => false,
+        }
+    }
+
+    /// Finish every pending thread-pool operation (bounded).
+    fn drain_pool_ops(&mut self) {
+        if !self.keep_pool_ops || self.driver.is_none() {
+            return;
+        }
+        let n = self.ops.len();
+        for i in 0..n {
+            if self.ops[i].st == St::Pending && self.pool_route(i) {
+                self.ready(i, 1);
+            }
+        }
+        let t0 = Instant::now();
+        while t0.elapsed() < Duration::from_secs(5) {
+            let still: Vec<usize> = (0..n).filter(|i| self.ops[*i].st == St::Pending && self.pool_route(*i)).collect();
+            if still.is_empty() {
+                break;
+            }
+            self.poll(5);
+            for i in still {
+                self.pop(i);
+            }
+        }
+    }
+
     fn ctx(&self, i: usize) -> String {
         format!("{}/{}", self.p.driver, self.ops[i].spec.kind.name())
     }
@@ -487,7 +523,10 @@ impl<'a> Exec<'a> {
         self.ops[i].group = group;
         let fd = self.groups[group].ours.clone();
         let fd_id = self.groups[group].fd_id;
-        verif::emit_user(ev::OP_USES_FD, i as u64, fd_id as i64);
+        if spec.kind != K::Asyncify {
+            // (a gated pool job does not touch the descriptor of its dummy group)
+            verif::emit_user(ev::OP_USES_FD, i as u64, fd_id as i64);
+        }
         let buf = Vec::<u8>::with_capacity(spec.size.max(1));
         self.ops[i].buf_ptr = buf.as_ptr() as usize;
         self.ops[i].buf_cap = buf.capacity();
@@ -724,7 +763,7 @@ impl<'a> Exec<'a> {
     }
 
     fn cancel(&mut self, i: usize) {
-        if self.ops[i].st != St::Pending {
+        if self.ops[i].st != St::Pending || (self.keep_pool_ops && self.pool_route(i)) {
             return;
         }
         let Some(driver) = self.driver.as_mut() else { return };
@@ -758,7 +797,7 @@ impl<'a> Exec<'a> {
     }
 
     fn drop_key(&mut self, i: usize) {
-        if self.ops[i].st != St::Pending {
+        if self.ops[i].st != St::Pending || (self.keep_pool_ops && self.pool_route(i)) {
             return;
         }
         verif::emit_user(ev::KEY_DROPPED, i as u64, 0);
@@ -810,6 +849,7 @@ impl<'a> Exec<'a> {
         if self.proactor_dropped {
             return;
         }
+        self.drain_pool_ops();
         verif::emit_user(ev::PROACTOR_DROP_BEGIN, 0, 0);
         self.driver = None;
         verif::emit_user(ev::PROACTOR_DROP_END, 0, 0);
@@ -884,6 +924,7 @@ pub fn run_program(p: &Program, prop: &str, canary: bool, log: bool) -> Outcome 
         file: None,
         counts: HashMap::new(),
         proactor_dropped: false,
+        keep_pool_ops: !log,
     };
 
     let mut pending_at_drop = 0usize;
@@ -1007,57 +1048,34 @@ pub fn run_program(p: &Program, prop: &str, canary: bool, log: bool) -> Outcome 
             let _ = tx.send(ex.ops[i].gate_val);
         }
     }
-    // wait (bounded) until every pool job that was submitted has begun and ended
-    let t0 = Instant::now();
-    let mut pool_quiet = true;
-    if !log {
-        // no event log (race-detector legs): a fixed grace period, and the
-        // log-based rules are skipped below
-        std::thread::sleep(Duration::from_millis(20));
-    }
-    while log {
-        STASH.with(|s| s.borrow_mut().extend(verif::drain()));
-        let (b, e2, s2) = STASH.with(|s| {
-            let s = s.borrow();
-            (
-                s.iter().filter(|e| e.kind == verif::Kind::BlockingBegin).count(),
-                s.iter().filter(|e| e.kind == verif::Kind::BlockingEnd).count(),
-                s.iter().filter(|e| e.kind == verif::Kind::Submit && e.b == 2).count(),
-            )
-        });
-        if b == e2 && b == s2 {
-            break;
-        }
-        if t0.elapsed() > Duration::from_millis(1500) {
-            pool_quiet = false;
-            break;
-        }
-        std::thread::sleep(Duration::from_millis(2));
-    }
-    // a pool thread releases what it still holds right after `BlockingEnd`: wait until
-    // the log has been silent for a moment (bounded)
-    if log {
-        let tq = Instant::now();
-        let mut last = STASH.with(|s| s.borrow().len());
-        let mut stable = 0;
-        while tq.elapsed() < Duration::from_millis(300) && stable < 3 {
-            std::thread::sleep(Duration::from_micros(500));
-            STASH.with(|s| s.borrow_mut().extend(verif::drain()));
-            let now = STASH.with(|s| s.borrow().len());
-            if now == last {
-                stable += 1;
-            } else {
-                stable = 0;
-                last = now;
-            }
-        }
-    }
+    // Groups (our ends of the descriptors and the peers) go first, then wait (bounded)
+    // until every pool job has ended, the log is silent and every operation created
+    // by this program has been released — a release on a pool thread may lag.
     let groups = std::mem::take(&mut ex.groups);
     let fd_ids: Vec<u64> = groups.iter().map(|g| g.fd_id).collect();
     drop(groups);
     for o in ex.ops.iter_mut() {
         o.accepted.clear();
     }
+    let (mut pool_quiet, settled) = if log {
+        settle_log(Duration::from_millis(3000))
+    } else {
+        // no event log (race-detector legs): a fixed grace period, and the
+        // log-based rules are skipped below
+        std::thread::sleep(Duration::from_millis(20));
+        (true, Vec::new())
+    };
+    let had_pool_jobs = settled.iter().any(|e| e.kind == verif::Kind::Submit && e.b == 2);
+    {
+        let news: std::collections::HashSet<u64> = settled.iter().filter(|e| e.kind == verif::Kind::OpNew).map(|e| e.a).collect();
+        let frees = settled.iter().filter(|e| e.kind == verif::Kind::OpFree && news.contains(&e.a)).count();
+        if frees < news.len() && had_pool_jobs {
+            // something is still held by a pool thread that has not got round to dropping it
+            // (itself the known foreign-thread release); leak rules cannot be decided
+            pool_quiet = false;
+        }
+    }
+    STASH.with(|s| s.borrow_mut().extend(settled));
     if let Some((path, _)) = ex.file.take() {
         let _ = std::fs::remove_file(path);
     }
@@ -1213,6 +1231,22 @@ pub fn settle_log(max: Duration) -> (bool, Vec<verif::Event>) {
             last = now;
         }
     }
+    // every operation created in this window should be released by now; a release that
+    // happens on a pool thread may lag behind on a loaded machine: wait for it (bounded)
+    let tf = Instant::now();
+    loop {
+        STASH.with(|s| s.borrow_mut().extend(verif::drain()));
+        let (news, frees) = STASH.with(|s| {
+            let s = s.borrow();
+            let news: std::collections::HashSet<u64> = s.iter().filter(|e| e.kind == verif::Kind::OpNew).map(|e| e.a).collect();
+            let frees = s.iter().filter(|e| e.kind == verif::Kind::OpFree && news.contains(&e.a)).count();
+            (news.len(), frees)
+        });
+        if frees >= news || tf.elapsed() > max {
+            break;
+        }
+        std::thread::sleep(Duration::from_millis(2));
+    }
     let mut events = STASH.with(|s| std::mem::take(&mut *s.borrow_mut()));
     events.extend(verif::drain());
     events.sort_by_key(|e| e.seq);
@@ -1229,7 +1263,10 @@ fn pool_job_ended(addr: usize) -> Option<bool> {
         if !submitted {
             return None;
         }
-        Some(s.iter().any(|e| e.kind == verif::Kind::BlockingEnd && e.a == addr as u64))
+        // the closure sends the completion and then wakes the driver: only the wake that
+        // follows `BlockingEnd` on that thread proves the completion is in the channel
+        let end = s.iter().find(|e| e.kind == verif::Kind::BlockingEnd && e.a == addr as u64);
+        Some(end.is_some_and(|end| s.iter().any(|e| e.kind == verif::Kind::Wake && e.tid == end.tid && e.seq > end.seq)))
     })
 }
 
